@@ -163,7 +163,9 @@ inline void Exec::data_setters(int i) {
         for (int j = 0; j < F; j++) fv[j] = 1e6 * (double)c.range(0, 1000);
         c.note("vnadata_set_frequency_vector(d%d, [%d])", i, F);
         Call k = mk("vnadata_set_frequency_vector", XP_OK, C_USAGE, "valid", O_DATA, i);
-        icall(k, [&] { return vnadata_set_frequency_vector(v, fv.p); });
+        const double *farg = fv.p;
+        if (F > 0 && alias_turn()) { farg = vnadata_get_frequency_vector(v); c.label("alias:vnadata_set_frequency_vector"); }     // the object's own vector
+        icall(k, [&] { return vnadata_set_frequency_vector(v, farg); });
         break;
     }
     case 2: {
@@ -216,7 +218,12 @@ inline void Exec::data_z0(int i) {
         Buf<dcx> zv((size_t)P); for (int j = 0; j < P; j++) zv[j] = gz0();
         c.note("vnadata_set_z0_vector(d%d, [%d])", i, P);
         Call k = mk("vnadata_set_z0_vector", XP_OK, C_USAGE, "valid", O_DATA, i);
-        icall(k, [&] { return vnadata_set_z0_vector(v, zv.p); });
+        const dcx *zarg = zv.p;
+        // the object's own vector (ordinary mode only: in per-frequency mode vnadata_get_z0_vector fails by documentation)
+        if (P > 0 && !vnadata_has_fz0(v) && alias_turn()) { const dcx *own = vnadata_get_z0_vector(v); datas[i]->log->clear(); if (own) { zarg = own; c.label("alias:vnadata_set_z0_vector"); } }
+        // per-frequency mode: one of the object's own per-frequency rows (the setter frees them while switching back to ordinary mode)
+        else if (P > 0 && F > 0 && vnadata_has_fz0(v) && alias_turn()) { const dcx *own = vnadata_get_fz0_vector(v, (int)(ncalls % (unsigned)F)); if (own) { zarg = own; c.label("alias:vnadata_set_z0_vector(per-frequency-row)"); } }
+        icall(k, [&] { return vnadata_set_z0_vector(v, zarg); });
         break;
     }
     case 3: {
@@ -231,7 +238,14 @@ inline void Exec::data_z0(int i) {
         Buf<dcx> zv((size_t)P); for (int j = 0; j < P; j++) zv[j] = gz0();
         c.note("vnadata_set_fz0_vector(d%d, %d)", i, fi);
         Call k = mk("vnadata_set_fz0_vector", ok ? XP_OK : XP_FAIL, C_USAGE, ok ? "valid" : "bad-index", O_DATA, i);
-        icall(k, [&] { return vnadata_set_fz0_vector(v, fi, zv.p); });
+        const dcx *zarg = zv.p;
+        if (ok && P > 0 && alias_turn()) {
+            // the object's own vector from vnadata_get_fz0_vector: one of its per-frequency rows, or -- in ordinary mode -- the ordinary
+            // vector, which the setter has to copy before it switches the object to per-frequency mode (repaired in 25efa7b)
+            const dcx *own = vnadata_get_fz0_vector(v, fi);
+            if (own) { zarg = own; c.label(vnadata_has_fz0(v) ? "alias:vnadata_set_fz0_vector" : "alias:vnadata_set_fz0_vector(ordinary-vector)"); }
+        }
+        icall(k, [&] { return vnadata_set_fz0_vector(v, fi, zarg); });
         break;
     }
     }
@@ -263,6 +277,7 @@ inline void Exec::data_fileopts(int i) {
         int how = c.weighted({8, 1, 3});
         const char *fmt = how == 0 ? good[c.draw(sizeof good / sizeof *good)] : how == 1 ? nullptr : bad[c.draw(sizeof bad / sizeof *bad)];
         c.note("vnadata_set_format(d%d, %s)%s", i, fmt ? ascii(std::string("\"") + fmt + "\"").c_str() : "NULL", how == 2 ? "  [invalid]" : "");
+        if (how == 0 && alias_turn() && vnadata_get_format(v)) { fmt = vnadata_get_format(v); c.label("alias:vnadata_set_format"); c.note("   (format = the object's own string from vnadata_get_format)"); }
         Call k = mk("vnadata_set_format", how == 2 ? XP_FAIL : XP_OK, C_USAGE, how == 2 ? "bad-format" : how == 1 ? "null-format" : "valid", O_DATA, i);
         icall(k, [&] { return vnadata_set_format(v, fmt); });
         break;
@@ -419,6 +434,28 @@ inline void Exec::prop_ops(vnaproperty_t **rootp, ObjKind ok, int oi, int ci, Ca
         Res r = op_set(&mm, d, isnull, val);
         c.note("%s_set(%s%s)%s", pfx, K ? (std::to_string(ci) + ", ").c_str() : "", ascii(esc(ds)).c_str(), r.ok ? "" : "  [invalid]");
         Call k = mk(fnname("set"), r.ok ? XP_OK : XP_FAIL, C_USAGE, r.ok ? "valid" : "assign-to-collection", ok, oi); k.log = nullptr;
+        // aliasing: the VALUE may be the library's own string -- the current value of the node being overwritten (set("a=%s", get("a")))
+        // or of the first scalar of the root map -- and the KEY may come from vnaproperty_keys (when it needs no quoting)
+        const char *own = nullptr; std::string dpart = pg.print(d);
+        if (!isnull && r.ok && alias_turn()) {
+            own = K ? vnacal_property_get(vcp, ci, "%s", dpart.c_str()) : vnaproperty_get(*rootp, "%s", dpart.c_str());
+            if (!own && m && m->kind == Node::MAP) for (auto &kv : m->map) if (!own && kv.second && kv.second->kind == Node::SCALAR && !PropGen::needs_quote(kv.first)) own = K ? vnacal_property_get(vcp, ci, "%s", kv.first.c_str()) : vnaproperty_get(*rootp, "%s", kv.first.c_str());
+        }
+        if (own) {
+            c.label(std::string("alias:") + fnname("set")); c.note("   (value = the library's own string %s)", ascii(esc(own)).c_str());
+            if (K) icall(k, [&] { return vnacal_property_set(vcp, ci, "%s=%s", dpart.c_str(), own); });
+            else icall(k, [&] { return vnaproperty_set(rootp, "%s=%s", dpart.c_str(), own); });
+            break;
+        }
+        if (!K && m && m->kind == Node::MAP && !m->map.empty() && alias_turn(3)) {
+            const char **keys = vnaproperty_keys(*rootp, ".");
+            if (keys && keys[0] && !PropGen::needs_quote(keys[0])) {
+                c.label("alias:vnaproperty_set(key)"); c.note("   then vnaproperty_set with the key pointer returned by vnaproperty_keys");
+                Call k2 = mk(fnname("set"), XP_OK, C_USAGE, "valid", ok, oi); k2.log = nullptr;
+                icall(k2, [&] { return vnaproperty_set(rootp, "%s=%s", keys[0], "k"); });
+            }
+            free((void *)keys);
+        }
         if (K) icall(k, [&] { return vnacal_property_set(vcp, ci, "%s", ds.c_str()); });
         else icall(k, [&] { return vnaproperty_set(rootp, "%s", ds.c_str()); });
         break;
